@@ -91,6 +91,9 @@ int sched_mutex_lock(pthread_mutex_t *m);
 int sched_mutex_trylock(pthread_mutex_t *m);
 int sched_mutex_unlock(pthread_mutex_t *m);
 int sched_once(pthread_once_t *o, void (*fn)());
+int sched_rw_lock(void *rw, bool write, bool try_only);   // pthread_rwlock_t / pthread_spinlock_t (as a writer-only lock) owned by the scheduler
+int sched_rw_unlock(void *rw);
+int sched_rw_init(void *rw, size_t size);
 void sched_block_on(const void *key, const std::string &what);   // park the calling thread until sched_wake_all(key); aborts the run when nobody can
 void sched_wake_all(const void *key);
 void run_batch(const Plan &plan, int opi, const Op &op, RunResult &r);
